@@ -56,7 +56,8 @@ class ProbabilisticAgent(AbstractScriptedAgent, discriminator="probabilistic-age
     @property
     def probabilities(self) -> Dict[str, int]:
         """Convenience method to view the probabilities of the Agent."""
-        return np.asarray(list(self.config.agent_settings.action_probabilities.values()))
+        probs = self.config.agent_settings.action_probabilities
+        return np.asarray([probs[i] for i in sorted(probs)])
 
     def get_action(self, obs: ObsType, timestep: int = 0) -> Tuple[str, Dict]:
         """
